@@ -727,6 +727,9 @@ func ruleR38(p *Prog) []Ob {
 				if sinks == 0 {
 					bad = append(bad, "the finder's result is not handed to any delete")
 				}
+				if sinks > 1 {
+					bad = append(bad, "the same set is handed to more than one delete: the later one meets offsets that are already gone, and Delete picks its segment from the lowest of them")
+				}
 				if len(bad) > 0 {
 					ob.Status, ob.Msg, ob.Path = Violated, "what the wrapper deletes is not exactly what its finder selected", uniqStrings(bad)
 				} else {
